@@ -52,6 +52,13 @@ pub fn name_pools() -> Vec<(Vec<&'static str>, Vec<&'static str>)> {
         // 31-multiplier string hash (Aa / BB)
         (vec!["totals", "_2024", "_1", "1a", "item", "totals2024"], vec!["_1", "k", "_2024"]),
         (vec!["aa", "bB", "aaaa", "bBbB", "aabB", "item", "Aa", "BB"], vec!["Aa", "BB", "AaAa", "BBBB"]),
+        // published collisions of 32-bit FNV-1a, and a pair with equal SipHash-1-3(0,0) (what
+        // `DefaultHasher::new()` computes) that round 5 of the seeded changes found by search
+        (vec!["costarring", "liquid", "declinate", "macallums", "altarage", "zinke"], vec!["k", "liquid"]),
+        (vec!["n347907a08a5de696", "nf961fed5c12918dc", "item"], vec!["k", "n347907a08a5de696", "nf961fed5c12918dc"]),
+        // an attribute and a child of one name next to a name that converts to <name>_attr without
+        // being spelled that way
+        (vec!["x", "xAttr", "x-attr", "X_ATTR", "x.attr", "foo", "fooAttr"], vec!["x", "foo", "xAttr"]),
     ]
 }
 
@@ -476,7 +483,7 @@ pub fn run_docprop(ctx: &mut Ctx, p: DocProp) {
     ctx.meta.push(("evaluations", J::N(evaluations)));
     ctx.meta.push(("distinct_nontrivial", J::N(distinct.len() as i64)));
     ctx.meta.push(("rule", json::s(format!(
-        "documents as DOM trees serialised with random incidental detail: {}{} random sequences of 1-{} documents with a common root (29 fixed name pools and, for a third of the cases, a pool of random names incl. keywords, case/separator variants, prefixed, non-ASCII, concatenation traps; depth<=5, fan-out<=6); {}; non-trivial = at least 3 nodes, distinct by DOM sequence",
+        "documents as DOM trees serialised with random incidental detail: {}{} random sequences of 1-{} documents with a common root (32 fixed name pools and, for a third of the cases, a pool of random names incl. keywords, case/separator variants, prefixed, non-ASCII, concatenation traps; depth<=5, fan-out<=6); {}; non-trivial = at least 3 nodes, distinct by DOM sequence",
         exh_note, n_rand, p.max_docs, p.what))));
     ctx.meta.push(("histogram", hist.json()));
     ctx.meta.push(("samples", J::A(samples)));
@@ -554,7 +561,7 @@ pub fn c04(ctx: &mut Ctx) {
     let mut evals = vec![ev("bytes", "ev_bytes", "corr"), ev("wf", "or_wf", "oracle"), ev("reflects", "or_reflects", "oracle"), ev("hyp", "in_hyp_names", "hyp")];
     // renderer-only property: the parser's internal state is not compared here (a harmless rewrite
     // of the parser must not break this check); `bytes` renders the implementation's own tree
-    run_docprop(ctx, DocProp { evals, opts: opts_presets, exhaustive: false, n_rand: (2500, 60000), pools: vec![3, 4, 5, 6, 7, 8, 9, 10, 11, 12, 14, 15, 16, 17, 18, 19, 20, 21, 23, 24], tweak: no_tweak, extra: None, max_docs: 3, with_chars: true, what: "adversarial name pools only; both presets x both sort options" });
+    run_docprop(ctx, DocProp { evals, opts: opts_presets, exhaustive: false, n_rand: (2500, 60000), pools: vec![3, 4, 5, 6, 7, 8, 9, 10, 11, 12, 14, 15, 16, 17, 18, 19, 20, 21, 23, 24, 28, 29, 30, 31, 31], tweak: no_tweak, extra: None, max_docs: 3, with_chars: true, what: "adversarial name pools only; both presets x both sort options" });
 }
 /// implementation-only: one element with `n` distinct children (far beyond what the model can
 /// evaluate per run); the fields and the struct definitions must follow the document (unsorted)
